@@ -34,7 +34,7 @@ func C20_Jobs() []string {
 	for _, op := range []string{"Min", "Max", "Len", "ContainsInt", "ContainsStr", "ContainsPtr", "ContainsStruct"} {
 		out = append(out, "slice/"+op)
 	}
-	out = append(out, "regex/Email", "regex/UUID", "regex/URL", "regex/Match")
+	out = append(out, "regex/Email", "regex/UUID", "regex/URL", "regex/Match", "regex/MatchPatterns")
 	out = append(out, "bool/True", "bool/False", "bool/EQ")
 	return out
 }
@@ -225,6 +225,12 @@ func c20Time(op, zone string) {
 		sc, code = sc.EQ(t), "eq"
 		ref = v.And(s1 == s2, n1 == n2)
 	}
+	// Parse: every instant is a value, the zero instant included
+	var pd time.Time
+	c20Verdict(sc.Parse(x, &pd), ref, code)
+	// Validate of the same instant carried in a location: not the zero VALUE, hence present
+	dz := x.In(time.FixedZone("Y", -3600))
+	c20Verdict(sc.Validate(&dz), ref, code)
 	d := x
 	errs := sc.Validate(&d)
 	if v.And(s1 == -62135596800, n1 == 0) { // the zero time is absent in Validate
@@ -356,7 +362,33 @@ var c20URLs = []c20case{
 	{"http://example.com#top", true}, {"https://example.com?q=1#frag", true}, {"http://[::1]#", true}, {"http://[::1]:80/x", true},
 }
 
+// Match follows the stated grammar of the pattern it was given: unanchored literals match
+// anywhere, anchors bind, classes and alternations work; also negated
+var c20Patterns = []struct {
+	re   string
+	s    string
+	want bool
+}{
+	{"abc", "abc", true}, {"abc", "xabc", true}, {"abc", "xxabcxx", true}, {"abc", "ab", false}, {"abc", "abxc", false},
+	{`a\.c`, "xa.c", true}, {`a\.c`, "abc", false}, {"(abc)", "zabc", true}, {"héllo", "say héllo", true}, {"^abc", "xabc", false}, {"^abc", "abcx", true},
+	{"abc$", "xabc", true}, {"abc$", "abcx", false}, {"a|b", "xxb", true}, {"a|b", "xx", false}, {"[0-9]+", "ab12", true}, {"", "anything", true},
+}
+
+func c20MatchPatterns() {
+	c := c20Patterns[v.Choice("case", len(c20Patterns))]
+	re := regexp.MustCompile(c.re)
+	d := c.s
+	c20Verdict(z.String().Match(re).Validate(&d), c.want, "match")
+	var p string
+	c20Verdict(z.String().Match(re).Parse(c.s, &p), c.want, "match")
+	c20Verdict(z.String().Not().Match(re).Validate(&d), !c.want, "not_match")
+}
+
 func c20Regex(kind string) {
+	if kind == "MatchPatterns" {
+		c20MatchPatterns()
+		return
+	}
 	var cases []c20case
 	switch kind {
 	case "Email":
